@@ -93,3 +93,13 @@ package server
 //@ effect[C06:v1-prefix-and-delimiter-of-the-request] every s.listAndFilterObjects(_, _, $b, $o)
 //@     needs before httputils.GetQueryParam(_, $n1) -> ($p) needs before httputils.GetQueryParam(_, $n2) -> ($d)
 //@     where $n1 == prefixQuery && $n2 == delimiterQuery && specSameOptStr($o.Prefix, $p) && specSameOptStr($o.Delimiter, $d) && $o.MaxKeys >= 0 && int64($o.MaxKeys) <= maxListLimit
+
+// C11. CreateMultipartUpload: whatever the request supplied - tags, system / user metadata, storage class - reaches the
+// storage together: supplying one of them does not drop another.
+//@ func (*Server).createMultipartUploadHandler
+//@ mode effects
+//@ effect[C11:upload-created-with-every-supplied-value] every s.storage.CreateMultipartUpload(_, $b, $k, $ct, $cst, $o)
+//@     where $b == bucketName && $k == key && ($ct == nil) == (contentType == nil) && ($ct != nil ==> *$ct == *contentType) &&
+//@         ($cst == nil) == (checksumType == nil) && ($cst != nil ==> *$cst == *checksumType) &&
+//@         (metadata != nil ==> $o != nil && $o.Metadata == metadata) && (storageClass != nil ==> $o != nil && $o.StorageClass == storageClass) &&
+//@         (taggingValue != "" ==> $o != nil && same($o.Tags, tags))
